@@ -9,9 +9,10 @@ CONSTANTS
   WM = 8
   ConstructSlots <- Slots3
   Unbounded = FALSE
+  ViewIds <- Views2
   Ops <- AllOps
   EmitAll = FALSE
 VIEW View
 ACTION_CONSTRAINT EmitHist
-INVARIANTS TypeOK Refines NoAlias NoUseAfterFree NoDoubleFree NoLeak ConfigKept RoundTrip
+INVARIANTS TypeOK Refines NoAlias NoUseAfterFree NoDoubleFree NoLeak ConfigKept RoundTrip ViewsValid ViewsSeeOwner
 CHECK_DEADLOCK FALSE
